@@ -420,7 +420,7 @@ def partialCmp (x y : Dec) : Option Ordering :=
   | (none, none) => none
 
 /-- `impl PartialEq<Decimal> for Decimal` -/
-def decEq (x y : Dec) : Bool :=
+def decimalEq (x y : Dec) : Bool :=
   match checkedAdjustCoeffs x.coeff x.nfrac y.coeff y.nfrac with
   | (some a, some b) => a = b
   | _ => false
